@@ -51,6 +51,13 @@ class TypedFrame:
             raise core.Unsupported("with_columns(*exprs) in add_missing_columns")
         out = dict(self.cols)
         for k, e in named.items():
+            if isinstance(e, str):
+                # polars: a python str in an expression position is a COLUMN NAME (pl.col(e)), not a literal
+                if e not in self.cols:
+                    raise PyExc(cur().ghost["interp"].make_exc(OtherException))  # polars ColumnNotFoundError
+                out[k] = self.cols[e]
+                cur().ghost.setdefault("copied_from_column", []).append((k, e))
+                continue
             # the natural type of the expression: the literal's own type / whatever the expression evaluates to - unknown
             out[k] = getattr(e, "dtype_tag", None) or ("natural-type-of", k)
         return TypedFrame(out, "with_columns")
@@ -124,7 +131,9 @@ class PolarsAddMissingColumns(Contract):
             dt.attrs["type"] = tag
             dt.attrs0["type"] = tag
             c = Obj(None, f"column_{k}", pre=True, fields={})
-            default = T.fresh_value(T.Opt(T.Any), f"default[{k}]")
+            # a default is absent, a non-string python value / polars expression (opaque), or a python STRING (the documented way to
+            # give a text column a default)
+            default = T.fresh_value(T.OneOf(None, T.Any, "some text"), f"default[{k}]")
             nullable = T.fresh_value(T.Bool, f"nullable[{k}]")
             c.attrs.update(default=default, nullable=nullable, dtype=dt, name=k, required=(k != "k_opt"))
             c.attrs0.update(c.attrs)
@@ -171,6 +180,7 @@ class PolarsAddMissingColumns(Contract):
             out[f"no_existing_column_is_lost[{k}]"] = k in result.cols
             out[f"existing_columns_keep_their_dtype[{k}]"] = result.cols.get(k) == t
         out["nothing_else_is_added"] = set(result.cols) <= set(g["frame"].cols) | set(g["absent"])
+        out["a_text_default_is_a_value_not_a_column_reference"] = not cur().ghost.get("copied_from_column")
         return out
 
     def on_raise(self, exc, old, self_, check_obj, schema, column_info):
@@ -192,6 +202,20 @@ class PolarsAddMissingColumns(Contract):
 
             warnings.simplefilter("ignore")
             obs, bad = {}, False
+            try:
+                st = pp.DataFrameSchema({"a": pp.Column(pl.Int32), "t": pp.Column(pl.String, default="a")}, add_missing_columns=True)
+                got = st.validate(pl.DataFrame({"a": pl.Series([1, 2], dtype=pl.Int32)}))["t"].to_list()
+                if got != ["a", "a"]:
+                    bad = True
+                    obs["text default 'a' next to a column named a"] = f"added column t = {got}, expected ['a', 'a']"
+                st2 = pp.DataFrameSchema({"x": pp.Column(pl.Int32), "t": pp.Column(pl.String, default="a")}, add_missing_columns=True)
+                st2.validate(pl.DataFrame({"x": pl.Series([1], dtype=pl.Int32)}))
+            except (pa.errors.SchemaError, pa.errors.SchemaErrors) as e:
+                bad = True
+                obs["text default"] = "rejected: " + str(e)[:60]
+            except Exception as e:  # noqa: BLE001
+                bad = True
+                obs["text default 'a'"] = f"leaked {type(e).__name__}"
             for name, default in (("python value", 0), ("pl.lit(0)", pl.lit(0)), ("pl.col('a')", pl.col("a")), ("pl.col('a') * 2", pl.col("a") * 2)):
                 schema = pp.DataFrameSchema({"a": pp.Column(pl.Int32), "b": pp.Column(pl.Float64, default=default)}, add_missing_columns=True)
                 for mk in (pl.DataFrame, pl.LazyFrame):
